@@ -809,8 +809,28 @@ func mat7(c *Ctx) {
 		}
 		// own-match returns and their counts
 		type own struct {
-			r    *ssa.Return
-			drop int64
+			r       *ssa.Return
+			drop    int64
+			touched int64
+		}
+		var idxParam *ssa.Parameter
+		for _, p := range fn.Params {
+			if b, ok := p.Type().Underlying().(*types.Basic); ok && b.Kind() == types.Int {
+				idxParam = p
+			}
+		}
+		recs := c.ctxRecords(fn)
+		touchedOf := func(r *ssa.Return) int64 {
+			var t int64 = 1
+			for _, rec := range recs {
+				if !rec.ok || !(rec.mu.Block() == r.Block() || rec.mu.Block().Dominates(r.Block())) {
+					continue
+				}
+				if usesOtherElement(rec.val, args, idxParam) {
+					t = 2
+				}
+			}
+			return t
 		}
 		var owns []own
 		for _, r := range ir.Returns(fn) {
@@ -821,7 +841,7 @@ func mat7(c *Ctx) {
 					c.Undecided(key, r.Pos(), "cannot compute how many tokens the returned vector drops")
 					continue
 				}
-				owns = append(owns, own{r, d})
+				owns = append(owns, own{r, d, touchedOf(r)})
 				k, isK := ir.ConstInt(r.Results[1])
 				c.Check(isK && k == d, key, r.Pos(), fmt.Sprintf("an own match drops %d token(s) and reports %d", d, k), fmt.Sprintf("an own match drops %d token(s) from the vector but reports %d consumed", d, k))
 			}
@@ -886,36 +906,78 @@ func mat7(c *Ctx) {
 					if k == 0 {
 						continue // gives the scan up; not a skip
 					}
-					sf := ir.DominatingConds(b)
-					var max int64 = -1
-					for _, o := range owns {
-						so := map[string]bool{}
-						for _, cd := range ir.DominatingConds(o.r.Block()) {
-							so[fmt.Sprintf("%s=%v", cd.Key, cd.Want)] = true
-						}
-						match := true
-						for _, cd := range sf {
-							if strings.Contains(cd.Key, ".theOne") {
-								continue
-							}
-							if !so[fmt.Sprintf("%s=%v", cd.Key, cd.Want)] {
-								match = false
-							}
-						}
-						if match && o.drop > max {
-							max = o.drop
+					sf := map[string]bool{}
+					for _, cd := range ir.DominatingConds(b) {
+						if !strings.Contains(cd.Key, ".theOne") {
+							sf[cd.Key] = cd.Want
 						}
 					}
-					if max < 0 {
-						c.Bad(key, ret.Pos(), "no own-match path is taken under the same form conditions as this foreign branch: the spelling of a foreign occurrence is classified differently from an own one (skip count %d cannot be justified)", k)
+					n := 0
+					var mismatch []string
+					for _, o := range owns {
+						compatible := true
+						for _, cd := range ir.DominatingConds(o.r.Block()) {
+							if w, shared := sf[cd.Key]; shared && w != cd.Want {
+								compatible = false
+							}
+						}
+						if !compatible {
+							continue
+						}
+						n++
+						if o.touched != k {
+							mismatch = append(mismatch, fmt.Sprintf("own match at %s occupies %d token(s)", c.P.Pos(o.r.Pos()), o.touched))
+						}
+					}
+					if n == 0 {
+						c.Bad(key, ret.Pos(), "no own-match path is compatible with the conditions of this foreign branch (skip count %d cannot be justified)", k)
 						continue
 					}
-					c.Check(k == max, key, ret.Pos(), fmt.Sprintf("skips %d token(s), as many as an own occurrence of this form consumes", k),
-						fmt.Sprintf("skips %d token(s) but an own occurrence of this form consumes %d: adjacent occurrences of different options no longer commute", k, max))
+					sort.Strings(mismatch)
+					c.Check(len(mismatch) == 0, key, ret.Pos(), fmt.Sprintf("skips %d token(s): every spelling this branch covers occupies exactly that many when it is an own occurrence", k),
+						fmt.Sprintf("skips %d token(s) but covers spellings that occupy a different number as own occurrences (%s): a foreign occurrence is classified differently from an own one, so adjacent occurrences of different options no longer commute", k, strings.Join(mismatch, "; ")))
 				}
 			}
 		})
 	}
+}
+
+// usesOtherElement reports whether recorded value v derives from an element of
+// args other than args[idx].
+func usesOtherElement(v ssa.Value, args, idx *ssa.Parameter) bool {
+	other := false
+	seen := map[ssa.Value]bool{}
+	var walk func(v ssa.Value)
+	walk = func(v ssa.Value) {
+		if seen[v] {
+			return
+		}
+		seen[v] = true
+		switch x := v.(type) {
+		case *ssa.UnOp:
+			if ia, ok := x.X.(*ssa.IndexAddr); ok {
+				if ia.X == ssa.Value(args) {
+					if ia.Index != ssa.Value(idx) {
+						other = true
+					}
+					return
+				}
+				walk(ia.X)
+			}
+		case *ssa.Slice:
+			walk(x.X)
+		case *ssa.Phi:
+			for _, e := range x.Edges {
+				walk(e)
+			}
+		case *ssa.Call:
+			if f := ir.Static(x); f != nil && ir.IsStdFunc(f, "strings", "SplitN") {
+				walk(x.Call.Args[0])
+			}
+		}
+	}
+	walk(v)
+	return other
 }
 
 // relLine gives a line number relative to the function start (stable under
